@@ -292,6 +292,42 @@ def nested_io_fail():
     return None
 
 
+def strict_process_fail():
+    """A process that turns warnings into errors (python -W error, pytest's filterwarnings = error) or asks for a charset
+    the interpreter does not know: whatever a load or a save then raises, the charset in force afterwards is the default, and
+    text encoded elsewhere comes out in latin1."""
+    import io
+    import warnings
+    import mido
+    blob = io.BytesIO()
+    mido.MidiFile(tracks=[mido.MidiTrack([mido.MetaMessage('text', text='abc')])]).save(file=blob)
+    blob = blob.getvalue()
+    want = list(mido.MetaMessage('text', text='caf\xe9').bytes())
+    for cs in ('utf-16', 'utf-32', 'cp037', 'utf-16-le', 'utf-8', 'latin1', 'no-such-charset', 'utf_7', 'cp500'):
+        for op in ('load', 'save', 'with'):
+            with warnings.catch_warnings():
+                warnings.simplefilter('error')
+                try:
+                    if op == 'load':
+                        mido.MidiFile(file=io.BytesIO(blob), charset=cs)
+                    elif op == 'save':
+                        mido.MidiFile(charset=cs, tracks=[mido.MidiTrack([mido.MetaMessage('text', text='abc')])]).save(file=io.BytesIO())
+                    else:
+                        from mido.midifiles.meta import meta_charset
+                        with meta_charset(cs):
+                            pass
+                except Exception:      # noqa: BLE001 - only what is left behind is judged
+                    pass
+            try:
+                got = list(mido.MetaMessage('text', text='caf\xe9').bytes())
+            except Exception as e:      # noqa: BLE001
+                got = 'raised %s: %s' % (type(e).__name__, e)
+            if got != want:
+                return (f'after a {op} with charset {cs!r} in a process that turns warnings into errors, MetaMessage("text", '
+                        f'text="caf\xe9").bytes() elsewhere gives {got} instead of the latin1 encoding {want}')
+    return None
+
+
 def run(ck):
     ck.prepare_lean()
     ck.run_corpus(oracle)
@@ -320,6 +356,11 @@ def run(ck):
     f = nested_io_fail()
     if f:
         ck.oracle_fail({'nested_io': True}, f)
+    ck.evaluations += 1
+    ck.count('strict_process')
+    f = strict_process_fail()
+    if f:
+        ck.oracle_fail({'strict_process': True}, f)
     envprobe.check(ck, ['meta', 'file', 'load'])
     return ck.finish(RULE, assumptions=['the codecs themselves are CPython\'s; the model implements latin1, ascii and strict UTF-8 '
                                         '(round trip proved); the other codecs are exercised through the oracle only',
@@ -327,6 +368,8 @@ def run(ck):
 
 
 def oracle(case):
+    if 'strict_process' in case:
+        return strict_process_fail()
     if 'nested_io' in case:
         return nested_io_fail()
     if 'environment' in case:
